@@ -88,7 +88,7 @@ class Check(c05.Check):
                 'bodies that raise, bundle sends carrying the last drawn value, '
                 'yield inf; 60% single-clock (SystemClock or one TempoClock incl. tempo changes) run in RT under '
                 'arbitrary scripted lateness and required to equal the NRT trace exactly; multi-clock programs are '
-                'compared per routine; every program runs in two fresh NRT processes (byte-identical score). '
+                'compared per routine; note events of an instrument with gate and 7 other controls (NRT); every program runs in two fresh NRT processes with different PYTHONHASHSEED (byte-identical score). '
                 'Non-trivial: >=2 routines and at least one of pause/resume/stop/wait/signal/tempo/draw executed in '
                 'a program with a positive delta; distinct by full case')
 
@@ -150,7 +150,10 @@ class Check(c05.Check):
             for _ in range(ny):
                 acts.append(['y', rng.choice(DELTAS)])
                 w = rng.random()
-                if w < 0.35:
+                if w < 0.06:
+                    # a note event of an instrument with a gate and several controls (NRT score only)
+                    acts.append(['note', rng.randrange(12)])
+                elif w < 0.35:
                     acts.append(['log'])
                 elif w < 0.5:
                     acts.append(['draw', pick_form(rng)])
@@ -246,7 +249,7 @@ class Check(c05.Check):
         if overdue:
             # tasks performed overdue read a PAST logical time: `etempo` (anchored at the elapsed = physical time in
             # RT) is then legitimately different in the two modes, and NRT cannot stamp bundles before time 0
-            rts = [[(['tempo'] + a[1:]) if a[0] == 'etempo' else a for a in s if a[0] != 'send'] for s in rts]
+            rts = [[(['tempo'] + a[1:]) if a[0] == 'etempo' else a for a in s if a[0] not in ('send', 'note')] for s in rts]
         has_tempo = any(a[0] in ('tempo', 'etempo', 'beats') for s in rts for a in s)
         has_etempo = any(a[0] == 'etempo' for s in rts for a in s)
         if (has_tempo and not single) or has_etempo:
@@ -262,11 +265,14 @@ class Check(c05.Check):
         return {'tempi': tempi, 'root': root, 'rts': rts, 'late': late, 'klass': 'S' if single else 'M',
                 'tail': rng.choice(['0', '0', '1/2', '2']), 'rerun': rng.random() < 0.35}
 
+    # two fresh processes differ in Python's per-process string hash seed, as two runs of a script do
+    nrt_env = {'PYTHONHASHSEED': '1'}
+
     def impl(self, cases):
         outs = super().impl(cases)
         if outs is None:
             return None
-        nrt2, err = common.run_impl('c10', 'run_nrt', {'cases': cases})
+        nrt2, err = common.run_impl('c10', 'run_nrt', {'cases': cases}, extra_env={'PYTHONHASHSEED': '2'})
         if nrt2 is None:
             self.notes.append('nrt2: ' + err)
             return None
